@@ -20,10 +20,26 @@ def t(doc):
     if not fails:
         return
     feats = sorted(model.features(doc))
-    culprits = []
+    # greedy: neutralise cumulatively until the document passes, then drop the features that were not needed
+    cur, used = doc, []
     for f in feats:
-        if not mod.judge(neutral.neutralise(doc, f), fmt):
-            culprits.append(f)
+        cur = neutral.neutralise(cur, f)
+        used.append(f)
+        if not mod.judge(cur, fmt):
+            break
+    else:
+        used = None
+    culprits = []
+    if used:
+        need = list(used)
+        for f in list(used):
+            trial = doc
+            for g in need:
+                if g != f:
+                    trial = neutral.neutralise(trial, g)
+            if not mod.judge(trial, fmt):
+                need.remove(f)
+        culprits = need
     key = (tuple(sorted({c for c, _ in fails})), tuple(culprits) or ("?",) + tuple(feats))
     classes[key] += 1
     examples.setdefault(key, fails[0][1][:160])
